@@ -58,8 +58,12 @@ class ChunkedRaw(io.RawIOBase):
 class FaultySink(io.RawIOBase):
     """Raw byte sink that raises OSError(err) once `limit` bytes were accepted."""
 
-    def __init__(self, limit: int | None = None, err: int = errno.EPIPE, short: bool = False):
+    def __init__(self, limit: int | None = None, err: int = errno.EPIPE, short: bool = False, piece: int | None = None):
         super().__init__()
+        # piecewise: every call accepts at most `piece` bytes and reports that count, no error ever (a pipe with a
+        # slow reader, a tty, a socket); a complete writer re-submits the rest until everything is out
+        self.piece = piece
+        self.partial_writes = 0
         self.buf = bytearray()
         self.limit = limit
         self.err = err
@@ -73,6 +77,10 @@ class FaultySink(io.RawIOBase):
 
     def write(self, b):
         data = bytes(b)
+        if self.piece is not None and len(data) > self.piece:
+            self.buf += data[: self.piece]
+            self.partial_writes += 1
+            return self.piece
         if self.limit is not None and len(self.buf) + len(data) > self.limit:
             room = max(0, self.limit - len(self.buf))
             self.buf += data[:room]
@@ -93,7 +101,7 @@ class Result:
 
 
 def run_inprocess(argv: list[str], *, stdin_bytes: bytes | None, chunks: list[int] | None = None,
-                  stdin_closed: bool = False, out_limit: int | None = None, out_err: int = errno.EPIPE, out_short: bool = False) -> Result:
+                  stdin_closed: bool = False, out_limit: int | None = None, out_err: int = errno.EPIPE, out_short: bool = False, out_piece: int | None = None) -> Result:
     from nix_manipulator.cli.main import main
 
     res = Result()
@@ -102,7 +110,7 @@ def run_inprocess(argv: list[str], *, stdin_bytes: bytes | None, chunks: list[in
     stdin = io.TextIOWrapper(io.BufferedReader(raw_in, buffer_size=8192), encoding="utf-8", errors="strict", newline="\n")
     if stdin_closed:
         stdin.close()
-    sink = FaultySink(out_limit, out_err, out_short)
+    sink = FaultySink(out_limit, out_err, out_short, out_piece)
     stdout = io.TextIOWrapper(sink, encoding="utf-8", errors="strict", write_through=True)
     errsink = FaultySink()
     stderr = io.TextIOWrapper(errsink, encoding="utf-8", errors="backslashreplace", write_through=True)
@@ -374,6 +382,10 @@ def generate(seed: int, tier: str) -> dict:
         fault = {"kind": "stdin_closed"}
     elif fr < 0.26:
         fault = {"kind": "stdout", "err": rng.choice(["EPIPE", "ENOSPC", "EFBIG"]), "at": rng.choice([0, 0, 1, 2, 5, 17, 100]), "short": rng.random() < 0.4}
+    elif fr < 0.34 and cmd[0] != "test":
+        # (`nima test` answers with a three-byte `print`, which python's own text layer hands to the raw stream)
+        # not an error at all: stdout takes the bytes a few at a time; the contract is the fault-free one
+        fault = {"kind": "stdout_piecewise", "piece": rng.choice([1, 2, 3, 5, 7, 64, 1000])}
     return {"prop": "C16", "engine": "cli", "seed": seed, "tier": tier, "text_kind": kind, "input": text, "cmd": cmd,
             "chunks": chunks, "fault": fault, "flag_first": rng.random() < 0.5}
 
@@ -432,12 +444,15 @@ def execute(case: dict, *, root: str | None = None, subprocess_check: bool = Fal
             out_short = bool(fault.get("short"))
             if out_short:
                 stats["fault:stdout_short_write"] = 1
+        out_piece = fault["piece"] if fkind == "stdout_piecewise" else None
+        if out_piece:
+            stats["fault:stdout_piecewise"] = 1
 
         runs: dict[str, Result] = {}
         # channel 1: stdin
         if fkind not in ("missing_file", "directory"):
             runs["stdin"] = run_inprocess(list(cmd), stdin_bytes=data, chunks=case["chunks"],
-                                          stdin_closed=(fkind == "stdin_closed"), out_limit=out_limit, out_err=out_err, out_short=out_short)
+                                          stdin_closed=(fkind == "stdin_closed"), out_limit=out_limit, out_err=out_err, out_short=out_short, out_piece=out_piece)
             stats["invocations"] += 1
             stats["stdin_reads"] = runs["stdin"].stdin_reads
         # channel 2: -f FILE
@@ -447,7 +462,7 @@ def execute(case: dict, *, root: str | None = None, subprocess_check: bool = Fal
                 fpath = os.path.join(root, "does-not-exist.nix")
             elif fkind == "directory":
                 fpath = root
-            runs["file"] = run_inprocess(_argv(cmd, fpath, case["flag_first"]), stdin_bytes=b"", out_limit=out_limit, out_err=out_err, out_short=out_short)
+            runs["file"] = run_inprocess(_argv(cmd, fpath, case["flag_first"]), stdin_bytes=b"", out_limit=out_limit, out_err=out_err, out_short=out_short, out_piece=out_piece)
             stats["invocations"] += 1
 
         usage = _arg_problem(cmd)
